@@ -8,7 +8,6 @@ specificity), R17.4 wildcard acceptance and normaliser agreement of every _value
 from __future__ import annotations
 
 import ast
-import re
 import typing as t
 
 from .. import astq
